@@ -14,6 +14,7 @@ import xobjects as xo
 from xv import bufmon
 from xv.model import Env, compare, exc_kind
 from xv.typegen import kinds_in, shape_sig, plain, walk
+from xv.hybridgen import _dims
 from xv.hybridgen import (gen_family, ValGenH, to_kwargs, compare_h, copy_model, spec_sig, DT)
 from xv.props.common import ctxs, flush_contracts, new_case, build_root
 
@@ -54,8 +55,8 @@ def implicit_default(kind, sub, dflt):
         return dflt
     if kind == "sc":
         return DT[sub].type(0)
-    if kind == "arr" and None not in sub[1]:
-        return np.zeros(sub[1], dtype=DT[sub[0]])
+    if kind == "arr" and None not in _dims(sub[1]):
+        return np.zeros(_dims(sub[1]), dtype=DT[sub[0]])
     return None
 
 
@@ -77,7 +78,7 @@ def value_with_defaults(spec, vg, rng, p_default, marks, path=""):
         else:
             shape = None
             if None in sub[1] and rng.random() < 0.2:
-                shape = [0 if d is None else d for d in sub[1]]
+                shape = [0 if d is None else d for d in _dims(sub[1])]
             mv[xn] = vg.array(sub[0], sub[1], shape)
             if d is not None and mv[xn].size > 1 and rng.random() < 0.4:
                 # equal to the default in SOME positions only (still not the default)
